@@ -73,7 +73,47 @@ def field_stores_of(f, rec):
     for bi, si, st in f.stmts():
         if st["k"] == "assign" and st["place"]["l"] == rec and len(st["place"]["p"]) == 2 and st["place"]["p"][0] == "deref" and isinstance(st["place"]["p"][1], dict) and "f" in st["place"]["p"][1]:
             out.append((st["place"]["p"][1]["name"], (bi, si), st))
+    # `mem::replace(&mut rec.field, new)`: a store at the position of the call (its answer is the previous value)
+    for bi, t, fld, ty in _replaced_fields(f, rec):
+        out.append((fld, (bi, 10 ** 6), {"k": "assign", "rv": {"k": "use", "op": t["args"][1]}, "place": None, "span": t["span"], "field_ty": ty}))
     return out
+
+
+def _replaced_fields(f, rec):
+    out = []
+    for bi, t in f.calls():
+        if (t.get("callee") or "") not in ("std::mem::replace", "core::mem::replace") or len(t["args"]) != 2:
+            continue
+        l = op_local(t["args"][0])
+        if l is None:
+            continue
+        cur = f.copy_root(l)
+        for _ in range(4):
+            # through reborrows `&mut *tmp`
+            ds = f.full_defs(cur)
+            if len(ds) == 1 and ds[0][0] == "stmt" and ds[0][3]["rv"]["k"] == "ref" and ds[0][3]["rv"]["place"]["p"] == ["deref"] \
+                    and ds[0][3]["rv"]["place"]["l"] != rec:
+                cur = f.copy_root(ds[0][3]["rv"]["place"]["l"])
+            else:
+                break
+        for d in f.full_defs(cur):
+            if d[0] == "stmt" and d[3]["rv"]["k"] == "ref":
+                pl = d[3]["rv"]["place"]
+                if pl["l"] == rec and len(pl["p"]) == 2 and pl["p"][0] == "deref" and isinstance(pl["p"][1], dict) and "name" in pl["p"][1]:
+                    out.append((bi, t, pl["p"][1]["name"], pl["p"][1].get("ty")))
+    return out
+
+
+def _strip_wrappers(ty):
+    ty = (ty or "").strip()
+    while True:
+        t2 = re.sub(r"^&(mut )?", "", ty).strip()
+        m = re.match(r"^std::option::Option<(.*)>$", t2)
+        if m:
+            t2 = m.group(1).strip()
+        if t2 == ty:
+            return ty
+        ty = t2
 
 
 def field_loads_of(f, rec, field):
@@ -98,6 +138,10 @@ def field_loads_of(f, rec, field):
                     out.append(((us[0][0], 10 ** 6), us[0][2]["dest"]["l"], "clone"))
                     continue
             out.append(((bi, si), dl, how))
+    for bi, t, fld, ty in _replaced_fields(f, rec):
+        if fld == field and not t["dest"]["p"]:
+            # the previous value, taken just before the store of the same call
+            out.append(((bi, 10 ** 6 - 1), t["dest"]["l"], "clone"))
     return out
 
 
@@ -218,6 +262,23 @@ def fix2(run):
             run.violation(R, key, f.loc(), "%s: no comparison of the newly computed value with the value kept from the previous pass was found (%s): a changed value would not force another pass" % (fid, why))
             continue
         rec, fld, cp, cdest, ckind, sws, span = found
+        # the comparison is over the whole kept value (its declared type), not a projection of it
+        fty = None
+        for (nm, p_, st_) in field_stores_of(f, rec):
+            if nm == fld:
+                fty = st_.get("field_ty") or (st_["place"]["p"][1].get("ty") if st_.get("place") else None) or fty
+        for (cp2, cd2, ck2, ops2, sp2) in comparisons(f):
+            if cp2 == cp:
+                tys = [_strip_wrappers(f.local_ty(op_local(o))) if op_local(o) is not None else None for o in ops2]
+                whole = fty is not None and all(t_ == _strip_wrappers(fty) for t_ in tys)
+                run.check(whole, R, key + "|whole-value", f.loc(span),
+                          "%s: the stability comparison is over the whole `%s` (%s)" % (fid, fld, fty),
+                          "%s: the stability comparison on `%s` (declared %s) compares %s: a change the projection does not show (a boolean flipping, a string or size changing) would not force another pass" % (fid, fld, fty, tys))
+        if run.debug_fix2 if hasattr(run, "debug_fix2") else False:
+            from rules_sym import deep
+            for (cp2, cd2, ck2, ops2, sp2) in comparisons(f):
+                if cp2 == cp:
+                    print("FIX2DBG", fid, fld, [deep(f, o, 4) for o in ops2], [f.local_ty(op_local(o)) if op_local(o) is not None else None for o in ops2])
         b, false_t, true_t = sws[0]
         eq_t, ne_t = (true_t, false_t) if ckind == "eq" else (false_t, true_t)
         res_blocks = rstate_blocks(f, "Resolved")
@@ -409,11 +470,40 @@ def flag_param_index(prog, g, field, depth=0):
     return sorted(hits)[0] if len(hits) == 1 else None
 
 
+def can_guess_definition(run, R="FIX1"):
+    """the rules treat `ctx.can_guess()` as the negation of the strict flag: its body must be exactly that (every guess is refused in
+    the confirming pass, whatever else is true of the pass)"""
+    cands = [g for g in run.prog.real_fns() if re.search(r"ResolverContext(::<.*>)?::can_guess$", g.id)]
+    if len(cands) != 1:
+        run.violation(R, R + "|can_guess|definition", "-", "mechanism not found: ResolverContext::can_guess (%d candidates)" % len(cands))
+        return
+    g = cands[0]
+    reads, nots, other = [], [], []
+    for bi, si, st in g.stmts():
+        if st["k"] != "assign":
+            continue
+        rv = st["rv"]
+        if rv["k"] == "use" and op_place(rv["op"]) is not None:
+            pl = op_place(rv["op"])
+            names = [p_.get("name") for p_ in pl["p"] if isinstance(p_, dict)]
+            (reads if pl["l"] == 1 and names == ["is_last_iteration"] else other).append(st)
+        elif rv["k"] == "unop" and rv["op"] == "Not":
+            nots.append(st)
+        else:
+            other.append(st)
+    branches = [b for b in g.reachable() if g.blocks[b]["term"]["k"] not in ("return", "goto")]
+    ok = len(reads) == 1 and len(nots) == 1 and not other and not branches and nots[0]["place"]["l"] == 0 \
+        and g.copy_root(op_local(nots[0]["rv"]["x"])) == g.copy_root(reads[0]["place"]["l"])
+    run.check(ok, R, R + "|can_guess|definition", g.loc(), "ResolverContext::can_guess is exactly `!is_last_iteration`",
+              "ResolverContext::can_guess is no longer the plain negation of is_last_iteration (%d read(s) of the flag, %d negation(s), %d other statement(s), %d branch(es)): a pass that must confirm could be allowed to guess" % (len(reads), len(nots), len(other), len(branches)))
+
+
 def fix1(run):
     """every delivered result is dominated by a confirming last pass and its success test"""
     R = "FIX1"
     prog = run.prog
     spec = run.table("fix")
+    can_guess_definition(run, R)
     for d in spec["drivers"]:
         f = prog.fn(d["fn"])
         if f is None:
